@@ -28,6 +28,7 @@ func init() {
 			"constraints (plus storability in the JSON manifest) holds. Oracle 2: invalid => SaveManifest fails and the directory is byte-identical; valid => LoadConfigFromManifest returns an " +
 			"equal configuration. Oracle 3 (every 25th case): a database created with a non-default configuration is reopened: MANIFEST unchanged, loads to the same configuration; for every " +
 			"truncation length of the MANIFEST and for valid-JSON-but-invalid rewrites NewEngineFacade fails and leaves manifest, log and table files byte-identical; the same for a MANIFEST that exists but cannot be read (symbolic link loop, directory). " +
+			"Oracle 4 (every 10th case): the same through the versioned config.Manifest type - NewManifest and UpdateConfig accept exactly the valid configurations, a rejected update changes nothing, Save+LoadManifest return the current configuration, and a current configuration made invalid in place through the shared *Config is rejected by Save with the directory byte-identical. " +
 			"distinct = hash of the field assignment; non-trivial = at least one field differs from the default",
 		Assumptions: []string{"the documented constraints are those stated in pkg/config (messages of Validate) and docs/config.md", "a missing MANIFEST is a new database, not an unreadable configuration"},
 		NumCases: func(tier string) int {
@@ -266,8 +267,128 @@ func runC20(c *core.Ctx, res *core.Result) {
 	if c.Idx%25 == 0 {
 		engineConfigCheck(c, res)
 	}
+	// Oracle 4: the same statement through the versioned Manifest type of pkg/config/manifest.go
+	if c.Idx%10 == 3 && len(res.Violations) == 0 {
+		manifestTypeCheck(c, res)
+	}
 	if c.Idx < 3 {
 		res.Sample = map[string]interface{}{"case": c.Idx, "config": desc, "expected_valid": want, "validate_error": fmt.Sprint(err), "perturbed_fields": changed}
+	}
+}
+
+// manifestTypeCheck drives config.Manifest (NewManifest / UpdateConfig / Save / LoadManifest / GetConfig): a
+// configuration enters the manifest only if it is valid, what Save stores is what LoadManifest returns, and a
+// configuration that has become invalid - through UpdateConfig or through the *Config the manifest shares
+// with its caller - is rejected by Save before anything is written.
+func manifestTypeCheck(c *core.Ctx, res *core.Result) {
+	r := c.Rand
+	dir := filepath.Join(c.Dir, "mdb")
+	os.MkdirAll(dir, 0755)
+	cfg := config.NewDefaultConfig(dir)
+	var changed []string
+	for i, n := 0, r.Pick(3, 3, 2); i < n; i++ {
+		perturb(r, cfg, &changed)
+	}
+	desc := cfgJSON(cfg)
+	want := cfgValid(cfg)
+	feat := map[string]string{"api": "Manifest", "expected_valid": fmt.Sprint(want)}
+	before := snapshotDir(dir)
+	m, err := config.NewManifest(dir, cfg)
+	res.Count("manifest_type_cases", 1)
+	if (err == nil) != want {
+		res.Violate("validate_mismatch", fmt.Sprintf("NewManifest() error = %v but the documented constraints say valid=%v for %s", err, want, desc), feat)
+		return
+	}
+	if !want {
+		if d := diffSnap(before, snapshotDir(dir)); d != "" {
+			res.Violate("invalid_config_side_effect", fmt.Sprintf("NewManifest rejected the configuration (%v) but %s", err, d), feat)
+		}
+		return
+	}
+	if err := m.Save(); err != nil {
+		res.Violate("valid_config_not_stored", fmt.Sprintf("Manifest.Save failed for a configuration that passes validation: %v; config: %s", err, desc), feat)
+		return
+	}
+	reload := func(step string, wantCfg *config.Config) bool {
+		lm, err := config.LoadManifest(dir)
+		if err != nil {
+			res.Violate("valid_config_not_loaded", fmt.Sprintf("LoadManifest failed after %s: %v; config: %s", step, err, cfgJSON(wantCfg)), feat)
+			return false
+		}
+		if !cfgEqual(lm.GetConfig(), wantCfg) {
+			res.Violate("config_roundtrip_mismatch", fmt.Sprintf("after %s: stored %s\nloaded %s", step, cfgJSON(wantCfg), cfgJSON(lm.GetConfig())), feat)
+			return false
+		}
+		res.Count("manifest_type_roundtrips", 1)
+		return true
+	}
+	if !reload("NewManifest+Save", cfg) {
+		return
+	}
+	// UpdateConfig: 1..3 updates, each accepted iff its result is valid; a rejected one changes nothing
+	cur := cfg
+	for u, n := 0, r.Range(1, 3); u < n; u++ {
+		var jb []byte
+		jb, _ = json.Marshal(cur)
+		next := &config.Config{}
+		json.Unmarshal(jb, next)
+		rr := r.Derive(uint64(100 + u))
+		rr2 := r.Derive(uint64(100 + u))
+		var ch []string
+		k := rr.Range(1, 2)
+		for i := 0; i < k; i++ {
+			perturb(rr, next, &ch)
+		}
+		uerr := m.UpdateConfig(func(c2 *config.Config) {
+			var ch2 []string
+			k2 := rr2.Range(1, 2)
+			for i := 0; i < k2; i++ {
+				perturb(rr2, c2, &ch2)
+			}
+		})
+		nv := cfgValid(next)
+		res.Count("manifest_type_updates", 1)
+		if (uerr == nil) != nv {
+			res.Violate("validate_mismatch", fmt.Sprintf("Manifest.UpdateConfig error = %v but the documented constraints say valid=%v for %s", uerr, nv, cfgJSON(next)), feat)
+			return
+		}
+		if nv {
+			cur = next
+		}
+		if !cfgEqual(m.GetConfig(), cur) {
+			res.Violate("config_roundtrip_mismatch", fmt.Sprintf("after UpdateConfig (error %v) the manifest's current configuration is %s, expected %s", uerr, cfgJSON(m.GetConfig()), cfgJSON(cur)), feat)
+			return
+		}
+		if err := m.Save(); err != nil {
+			res.Violate("valid_config_not_stored", fmt.Sprintf("Manifest.Save failed after UpdateConfig (error %v) although the current configuration is valid: %v", uerr, err), feat)
+			return
+		}
+		if !reload("UpdateConfig+Save", cur) {
+			return
+		}
+	}
+	// the current *Config is shared with the caller (GetConfig, the pointer given to NewManifest) and
+	// Config.Update changes it in place without validation: Save is the last line of defence
+	live := m.GetConfig()
+	for try := 0; try < 40 && cfgValid(live); try++ {
+		live.Update(func(c2 *config.Config) {
+			var ch2 []string
+			perturb(r, c2, &ch2)
+		})
+	}
+	if cfgValid(live) {
+		return
+	}
+	before = snapshotDir(dir)
+	serr := m.Save()
+	res.Count("manifest_type_invalid_saves", 1)
+	if serr == nil {
+		_, lerr := config.LoadManifest(dir)
+		res.Violate("invalid_config_stored", fmt.Sprintf("Manifest.Save stored a current configuration that violates a documented constraint (changed in place through GetConfig().Update); LoadManifest afterwards: %v; config: %s", lerr, cfgJSON(live)), feat)
+		return
+	}
+	if d := diffSnap(before, snapshotDir(dir)); d != "" {
+		res.Violate("invalid_config_side_effect", fmt.Sprintf("Manifest.Save rejected the configuration (%v) but %s", serr, d), feat)
 	}
 }
 
